@@ -33,10 +33,12 @@ where
         let mut purified_cstore = ConstraintStore::new();
         for constraint in self.0.into_iter() {
             if let Some(tree_constraint) = constraint.downcast_ref::<DisequalityConstraint<U, E>>() {
+                // A disequality is relevant only if it refers to reified variables alone: any
+                // other variable it mentions is free to take a value that satisfies it.
                 if tree_constraint
                     .smap_ref()
                     .iter()
-                    .any(|(u, _)| r.is_anyvar(u))
+                    .all(|(u, v)| r.is_anyvar(u) && r.is_reified(v))
                 {
                     purified_cstore.insert(constraint);
                 }
